@@ -7,8 +7,9 @@
    call.  ALSO PROVED (C06_operators_return_specified_values): the value a
    closed program hands back - through any nesting of differential operators -
    is the number the tag-free tower semantics assigns to it (nested_correct).
-   NOT PROVED HERE (tied by the correspondence run only): that the value handed
-   back is an unboxed object at top level, and the re-implemented NumPy wrappers
+   and it is a plain number - no box of any trace survives in it
+   (C06_no_tracer_object_in_results).
+   NOT PROVED HERE (tied by the correspondence run only): the re-implemented NumPy wrappers
    (concatenate, vstack, ...), which are compared with NumPy directly by
    ./check C06. *)
 From Coq Require Import List ZArith.
@@ -41,6 +42,13 @@ Theorem C06_operators_return_specified_values :
     end.
 Proof. exact nested_correct. Qed.
 Print Assumptions C06_operators_return_specified_values.
+
+Theorem C06_no_tracer_object_in_results :
+  forall fuel e (s : state Z),
+    prims_ok e = true -> (-1 <= top Z s)%Z -> calm Z s -> store Z s = [] ->
+    forall v, fst (zeval_sup Mono fuel [] e s) = Val v -> exists k, v = VNum Z k.
+Proof. exact closed_result_is_plain. Qed.
+Print Assumptions C06_no_tracer_object_in_results.
 
 (* non-vacuity: x*x + F0(x) on an input boxed twice (reverse inside forward) *)
 Example C06_example :
